@@ -61,6 +61,31 @@ CHECKS = {
                      'against ObsC11: per consumer exactly the puts after its subscription, in order, once; single await gets the '
                      'first message; close semantics; nobody left waiting for a message that was put.',
                 note='Bounded programs; a consumer iterator is kept by the puppet until it stops explicitly or its generator ends.'),
+    'C01': dict(obs='ObsC01', ref='4/C01',
+                text='TLC checks FutureOnly/NoFault on all bounded programs of delays, date conditions (>=, ==, < incl. past, now, '
+                     'equal dates), eternity/instant, delayed spawns and until(date); witnesses are replayed on the real loop, and '
+                     'seeded random programs beyond TLC\'s bounds (up to 8 roots plus children, decimal float dates, many pending '
+                     'dates, non-zero and negative start times) are added; TLC validates every recorded trace against ObsC01 '
+                     '(clock never decreases, each timed wait resumes exactly at its date, impossible dates never resume, delayed '
+                     'tasks start exactly at their date).',
+                note='For float dates the expected resume date is computed by the harness with the same float addition as the '
+                     'loop and all dates are mapped to their rank (TLC has no floats); integer programs are checked with the '
+                     'monitor\'s own arithmetic.'),
+    'C08': dict(obs='ObsC08', ref='4/C08',
+                text='TLC checks NoMissedWake on all bounded programs over flags, inverse flags, task completion, time atoms and '
+                     'flat connectives (value changes that revert inside one time step, several waiters); replay on the real '
+                     'conditions; TLC validates real traces against ObsC08, whose own evaluator recomputes every expression from the '
+                     'observed atom values: true at resume, nobody left waiting at the end of a time step in which the condition '
+                     'holds, bool(c) / bool(~c) agree with boolean algebra.',
+                note='Nested connectives are a recorded known finding (KF-C08-nested-connective); tracked-value comparisons are '
+                     'covered with the resource model (C12).'),
+    'C20': dict(obs='ObsC20', ref='4/C20',
+                text='TLC enumerates every listed operation in states where it can complete immediately (flag set, item buffered, '
+                     'stream closed, empty scope, done task, true condition ...) next to spinner activities (`await instant` '
+                     'loops); replay on the real code; TLC validates traces against ObsC20: every activity that was runnable when '
+                     'an operation began has had a turn before the operation completes normally (or time advanced).',
+                note='Operations that end by raising carry no obligation; leaving an until() block that is cut short by its own '
+                     'interrupt, Lock entry/exit and channel iteration steps with buffered messages are not judged (DESIGN.md section 6).'),
 }
 
 
